@@ -37,7 +37,20 @@ def main():
         print("not reproduced: the recorded input now satisfies the property")
         return 0
     rng = np.random.default_rng([a.seed, sum(map(ord, a.prop))])
-    res = mod.run(rng, a.tier, a.deep)
+    try:
+        res = mod.run(rng, a.tier, a.deep)
+    except (ArithmeticError, ValueError, IndexError, KeyError, TypeError, AttributeError, AssertionError, NameError, ImportError) as e:
+        # the harness's own bookkeeping around the real code broke on what the implementation now returns (a division by a value
+        # that used to be non-zero, a shape that no longer unpacks, a name that no longer exists): that is a disagreement between
+        # implementation and model, not a tooling failure.  Resource errors (MemoryError, OSError, timeouts) still abort with
+        # a non-zero status and are reported as exit 2 by ./check.
+        import traceback
+        tb = traceback.format_exc()
+        res = dict(disagreements=[dict(what="harness aborted on the implementation's behaviour: %s: %s" % (type(e).__name__, str(e)[:200]),
+                                       op=tb[-1500:])],
+                   oracle_failures=[], corr_cases=0, evaluations=0, oracle_evaluations=0, distinct_nontrivial=0,
+                   rule="harness aborted: " + tb.strip().splitlines()[-1][:200], samples=[tb[-800:]], branches={}, deep=a.deep,
+                   aborted=True)
     json.dump(res, open(a.out, "w"), default=str)
     return 0
 
